@@ -95,4 +95,55 @@ def okIs {α : Type} [BEq α] (r : Except SetErr (List α)) (xs : List α) : Boo
 #guard !(okIs (setDays (fun (b : Bool) => b) (.container false [true, false])) [true, false])
 #guard okIs (setDaysWith [.checkItems, .storeListOfArg] (fun (b : Bool) => b) (.oneShot [true, true])) []
 
+/-! ### round 6: the location-update loop of the two setters (`for dd in self._design_days: if dd.location !=
+    self._location: dd.location = self._location`)
+
+A design day is, for the DDY, its location `ℓ` and everything else `δ`.  The loop is parameterised by the test
+`differs`; the code's test is the comparison of the whole Location objects (`Gen.DDY.daysSetterGuard`,
+`locationSetterGuard`, regenerated from ddy.py; `Location.__eq__` compares `Gen.DDY.locationKey`). -/
+
+/-- The update loop with the test `differs dayLocation ddyLocation`. -/
+def updateLocationsWith {ℓ δ : Type} (differs : ℓ → ℓ → Bool) (ddyLoc : ℓ) (days : List (ℓ × δ)) : List (ℓ × δ) :=
+  days.map fun d => if differs d.1 ddyLoc then (ddyLoc, d.2) else d
+
+/-- The test a guard of ddy.py stands for. -/
+def guardTest {ℓ : Type} [DecidableEq ℓ] : LocGuard → ℓ → ℓ → Bool
+  | .wholeLocation => fun a b => decide (a ≠ b)
+
+/-- The loop of the `design_days` setter / of the `location` setter as the source has them. -/
+def updateLocations {ℓ δ : Type} [DecidableEq ℓ] (ddyLoc : ℓ) (days : List (ℓ × δ)) : List (ℓ × δ) :=
+  updateLocationsWith (guardTest daysSetterGuard) ddyLoc days
+
+def updateLocationsOnLocationSet {ℓ δ : Type} [DecidableEq ℓ] (ddyLoc : ℓ) (days : List (ℓ × δ)) : List (ℓ × δ) :=
+  updateLocationsWith (guardTest locationSetterGuard) ddyLoc days
+
+/-- `ddy[i] = day` (`DDY.__setitem__`): the day is stored as it comes - ddy.py has NO update loop there. -/
+def setItem {ℓ δ : Type} (days : List (ℓ × δ)) (i : Nat) (d : ℓ × δ) : List (ℓ × δ) :=
+  days.set i d
+
+/-- What a reader of the written file sees: ONE `Site:Location`, given to every design day of the file. -/
+def readBack {ℓ δ : Type} (ddyLoc : ℓ) (days : List (ℓ × δ)) : ℓ × List (ℓ × δ) :=
+  (ddyLoc, days.map fun d => (ddyLoc, d.2))
+
+/-- The nine attributes of a Location (numbers and texts as canonical tokens). -/
+structure Loc9 where
+  city : String
+  state : String
+  country : String
+  latitude : String
+  longitude : String
+  timeZone : String
+  elevation : String
+  stationId : String
+  source : String
+deriving DecidableEq, Repr
+
+/-- The slot that holds the attribute a key entry reads (`latitude` is the property over `_lat`, ...). -/
+def slotOf (k : String) : String :=
+  if k = "latitude" then "_lat" else if k = "longitude" then "_lon" else if k = "time_zone" then "_tz"
+  else if k = "elevation" then "_elev" else k
+
+#guard (updateLocations "L" [("L", 1), ("M", 2)]) == [("L", 1), ("L", 2)]
+#guard (updateLocationsWith (fun (a b : String) => a.length != b.length) "L" [("M", 2)]) == [("M", 2)]
+
 end DD.Shapes
